@@ -20,12 +20,12 @@ func init() {
 			"cache lookup happens in the same critical section as the lookup — no path from lookup to increment passes an unlock; (refcount-protocol) destruction is " +
 			"decided on the result of the atomic decrement, the wrapped CryptoKey.Close is called only from cachedCryptoKey.Close, the count starts at 1; " +
 			"(every-handout-counted) every non-nil *cachedCryptoKey returned by a keyCacher implementation is the result of tracked()/newCachedCryptoKey(). " +
-			"These are the windows a schedule can hit; the schedules themselves are not enumerated.",
+			"(teardown-waits, shared with C16) a cached session evicted under session-cache churn is torn down only after a wait loop saw no holders. These are the windows a schedule can hit; the schedules themselves are not enumerated.",
 		NotDecided:  []string{"all interleavings of goroutines", "asynchronous eviction timing in pkg/cache", "correctness of sync/atomic and sync.RWMutex", "operations racing with the close of their own session/factory (excluded by the property)"},
 		Assumptions: []string{"evictions of key-cache entries happen only inside keys.Set / keys.Close (pkg/cache has no expiry configured for key caches)", "String() methods reached only through fmt are diagnostic (exempt, listed)"},
 		Tech:        "static analysis: lock-state dataflow per mutex on SSA with inferred helper entry states; path search for unlock between lookup and refcount increment; who-may-call",
 		NeedU1:      true,
-		Rules:       []func(*Ctx){ruleC08CacheStateUnderLock, ruleC08HandoutUnderLock, ruleC08RefcountProtocol, ruleC08EveryHandoutCounted},
+		Rules:       []func(*Ctx){ruleC08CacheStateUnderLock, ruleC08HandoutUnderLock, ruleC08RefcountProtocol, ruleC08EveryHandoutCounted, ruleC16TeardownWaits},
 	})
 }
 
